@@ -33,9 +33,11 @@ let observe (opname : string) =
                            (String.concat "," (List.map ev_s fresh)) (int_of_nat (s_bad s)));
     if s_hung s then Buffer.add_string b " HUNG"
     else begin
-      if s_cleaned s then Buffer.add_string b " ref=- max=- ptr=-"
-      else Buffer.add_string b (Printf.sprintf " ref=%d max=%d ptr=%d" (int_of_z (s_ref s)) (int_of_z (s_maxfd s))
-                                  (match s_ptr s with Some k -> int_of_nat k | None -> -1));
+      if s_cleaned s then Buffer.add_string b " ref=- max=- ptr=- sc=-"
+      else Buffer.add_string b (Printf.sprintf " ref=%d max=%d ptr=%d sc=[%s]" (int_of_z (s_ref s)) (int_of_z (s_maxfd s))
+                                  (match s_ptr s with Some k -> int_of_nat k | None -> -1)
+                                  (String.concat ";" (List.map (fun ((w, h), r) ->
+                                     Printf.sprintf "%dx%d:%d" (int_of_z w) (int_of_z h) (int_of_z r)) (s_scaled s))));
       List.iteri (fun k c ->
         let l = c_life c and p = c_proto c in
         let cnt = Printf.sprintf "n%d,g%d,x%d,w%d" (int_of_nat (l_new l)) (int_of_nat (l_gone l))
@@ -50,9 +52,11 @@ let observe (opname : string) =
           let r = (if has_res RZStream (p_res p) then "Z" else "") ^ (if has_res RBefore (p_res p) then "B" else "")
                   ^ (if has_res RAfter (p_res p) then "A" else "") ^ (if p_ftopen p then "F" else "") in
           Buffer.add_string b
-            (Printf.sprintf " | %d:s%d,%s,h%s,%s,L%s,F%s,q%s,m%s,e%d,r%s,fd%s" k (int_of_z (state_num (p_state p)))
+            (Printf.sprintf " | %d:s%d,%s,h%s,%s,L%s,F%s,q%s,m%s,e%d,r%s,z%s,fd%s" k (int_of_z (state_num (p_state p)))
                (if l_open l then "o" else "c") (b2s (p_hold p)) cnt (b2s inlist) (b2s infds) (b2s (p_req p))
-               (b2s (p_mod p)) (int_of_z (p_enc p)) r (b2s (l_open l)))
+               (b2s (p_mod p)) (int_of_z (p_enc p)) r
+               (if p_scaled p then Printf.sprintf "%dx%d" (int_of_z (p_sw p)) (int_of_z (p_sh p)) else "-")
+               (b2s (l_open l)))
         end) (s_conns s);
       if not (s_cleaned s) then begin
         let it = List.filter (fun k -> is_open s k) (s_order s) in
@@ -71,16 +75,18 @@ let () =
     match split_ws line with
     | [] -> ()
     | "case" :: _ -> st := None; seen_log := 0; print_endline line
-    | "config" :: w :: h :: au :: al :: ne :: dd :: xv :: ft :: fixes ->
-        let fx i = (match List.nth_opt fixes i with Some v -> bool v | None -> false) in
+    | "config" :: w :: h :: au :: al :: ne :: dd :: xv :: ft :: _ ->
         st := Some (init { g_w = z_of_int (int_of_string w); g_h = z_of_int (int_of_string h); g_auth = bool au;
-                           g_always = bool al; g_never = bool ne; g_dontdisc = bool dd; g_xvp = bool xv; g_ft = bool ft;
-                           g_fix_wlock = fx 0; g_fix_ftfd = fx 1; g_fix_iter = fx 2; g_fix_cut8 = fx 3 });
+                           g_always = bool al; g_never = bool ne; g_dontdisc = bool dd; g_xvp = bool xv; g_ft = bool ft });
         seen_log := 0; observe "config"
     | "accept" :: d :: rest ->
         let dec = (match d with "h" -> DHold | "r" -> DRefuse | _ -> DAccept) in
         let (pre, po) = (match rest with "closed" :: _ -> ([], false) | hx :: _ -> (unhex hx, true) | [] -> ([], true)) in
         apply (OAccept (dec, pre, po)); observe "accept"
+    | "laccept" :: d :: rest ->
+        let dec = (match d with "h" -> DHold | "r" -> DRefuse | _ -> DAccept) in
+        let (pre, po) = (match rest with "closed" :: _ -> ([], false) | hx :: _ -> (unhex hx, true) | [] -> ([], true)) in
+        apply (OLAccept (dec, pre, po)); observe "laccept"
     | ["in"; k; hx] -> apply (OIn (nat k, unhex hx)); observe "in"
     | ["in"; k] -> apply (OIn (nat k, [])); observe "in"
     | ["peerclose"; k] -> apply (OPeerClose (nat k)); observe "peerclose"
@@ -107,6 +113,6 @@ let () =
              let nfl = List.fold_left (fun a c ->
                  a + count_res RFileFd (c_leak c) + (if l_freed (c_life c) then 0 else count_res RFileFd (p_res (c_proto c))))
                  0 (s_conns s) in
-             Printf.printf "fin filefds=%d busy=0\n" nfl
-         | None -> Printf.printf "fin filefds=0 busy=0\n")
+             Printf.printf "fin filefds=%d busy=0 appfds_lost=0\n" nfl
+         | None -> Printf.printf "fin filefds=0 busy=0 appfds_lost=0\n")
     | _ -> Printf.printf "?? %s\n" line)
